@@ -410,7 +410,7 @@ class C14:
             cases.append(self.rerun({'op': 'split', 'cols': cols, 'keys': keys, 'order': [], 'tags': ['preset']}))
             cases.append(self.rerun({'op': 'group', 'cols': cols, 'keys': keys, 'order': [], 'by_form': 'list',
                                      'tags': ['preset']}))
-        reps = int((260 if quick else 4000) * scale)
+        reps = int((600 if quick else 5000) * scale)
         maxn = 12 if quick else 16
         for _ in range(reps):
             for op in ('split', 'splitv', 'group'):
